@@ -57,6 +57,8 @@ type c17Opts struct {
 	emptyBefore bool   // a loader that has no template at all registered before the counting loader
 	emptyAfter  bool   // ... and after it
 	debug       bool
+	route       int  // how the callbacks reach the engine: 0 AddFilter/AddFunction/AddTest, 1 RegisterExtension, 2 CreateExtension + Add...ToExtension + AddExtension
+	chain       bool // the counting loader inside a ChainLoader, in front of a loader that has every name too (other text)
 }
 
 type c17Engine struct {
@@ -119,6 +121,7 @@ func (ce *c17Engine) Exists(name string) bool { _, ok := ce.tpls[name]; return o
 
 func newC17Engine(c Case, o c17Opts) *c17Engine {
 	ce := &c17Engine{eng: twig.New(), opts: o, tpls: map[string]string{}}
+	filters, functions, tests := map[string]twig.FilterFunc{}, map[string]twig.FunctionFunc{}, map[string]twig.TestFunc{}
 	for _, cu := range c.list("custom") {
 		t, _ := cu.([]interface{})
 		if len(t) != 3 {
@@ -132,14 +135,14 @@ func newC17Engine(c Case, o c17Opts) *c17Engine {
 		}
 		switch kind {
 		case "filter":
-			ce.eng.AddFilter(name, func(value interface{}, args ...interface{}) (interface{}, error) {
+			filters[name] = func(value interface{}, args ...interface{}) (interface{}, error) {
 				if err := ce.hit(key); err != nil {
 					return nil, err
 				}
 				return value, nil
-			})
+			}
 		case "function":
-			ce.eng.AddFunction(name, func(args ...interface{}) (interface{}, error) {
+			functions[name] = func(args ...interface{}) (interface{}, error) {
 				if err := ce.hit(key); err != nil {
 					return nil, err
 				}
@@ -147,14 +150,50 @@ func newC17Engine(c Case, o c17Opts) *c17Engine {
 					return args[0], nil
 				}
 				return nil, nil
-			})
+			}
 		case "test":
-			ce.eng.AddTest(name, func(value interface{}, args ...interface{}) (bool, error) {
+			tests[name] = func(value interface{}, args ...interface{}) (bool, error) {
 				if err := ce.hit(key); err != nil {
 					return false, err
 				}
 				return value != nil, nil
-			})
+			}
+		}
+	}
+	switch o.route {
+	case 1:
+		ce.eng.RegisterExtension("c17ext", func(x *twig.CustomExtension) {
+			for n, f := range filters {
+				x.Filters[n] = f
+			}
+			for n, f := range functions {
+				x.Functions[n] = f
+			}
+			for n, f := range tests {
+				x.Tests[n] = f
+			}
+		})
+	case 2:
+		x := ce.eng.CreateExtension("c17ext2")
+		for n, f := range filters {
+			ce.eng.AddFilterToExtension(x, n, f)
+		}
+		for n, f := range functions {
+			ce.eng.AddFunctionToExtension(x, n, f)
+		}
+		for n, f := range tests {
+			ce.eng.AddTestToExtension(x, n, f)
+		}
+		ce.eng.AddExtension(x)
+	default:
+		for n, f := range filters {
+			ce.eng.AddFilter(n, f)
+		}
+		for n, f := range functions {
+			ce.eng.AddFunction(n, f)
+		}
+		for n, f := range tests {
+			ce.eng.AddTest(n, f)
 		}
 	}
 	if pol, ok := c["policy"].(map[string]interface{}); ok {
@@ -190,7 +229,15 @@ func newC17Engine(c Case, o c17Opts) *c17Engine {
 		if o.emptyBefore {
 			ce.eng.RegisterLoader(twig.NewArrayLoader(map[string]string{}))
 		}
-		ce.eng.RegisterLoader(ce)
+		if o.chain {
+			stale := map[string]string{}
+			for n := range ce.tpls {
+				stale[n] = "STALE COPY OF " + n
+			}
+			ce.eng.RegisterLoader(twig.NewChainLoader([]twig.Loader{twig.NewArrayLoader(map[string]string{}), ce, twig.NewArrayLoader(stale)}))
+		} else {
+			ce.eng.RegisterLoader(ce)
+		}
 		if o.emptyAfter {
 			ce.eng.RegisterLoader(twig.NewArrayLoader(map[string]string{}))
 		}
@@ -440,7 +487,7 @@ func runC17(cases string, res *Result) {
 		for k := 1; k <= limit; k++ {
 			bare := k%2 == 0
 			for _, v := range []struct{ to, debug bool }{{false, false}, {true, false}, {false, true}, {true, true}} {
-				ce := newC17Engine(c, c17Opts{failAt: k, bare: bare, debug: v.debug})
+				ce := newC17Engine(c, c17Opts{failAt: k, bare: bare, debug: v.debug, route: (k + idxOfBool(v.to) + 2*idxOfBool(v.debug)) % 3})
 				r := ce.run(c, v.to)
 				res.Evaluations++
 				res.Hist["fault-runs"]++
@@ -573,7 +620,12 @@ func runC17(cases string, res *Result) {
 				eb, ea := (j+idxOfBool(to))%4 == 1 || (j+idxOfBool(to))%4 == 3, (j+idxOfBool(to))%4 >= 2
 				variant := fmt.Sprintf("load %d of %d (%s) %s empty-loader-before=%v after=%v", j, len(loads), tname, c17Variant(to, false, false), eb, ea)
 				// (a) an I/O failure of the loader
-				ce := newC17Engine(c, c17Opts{loader: true, loadFailAt: j, emptyBefore: eb, emptyAfter: ea})
+				chain := (j/4+idxOfBool(to))%2 == 1
+				if chain {
+					variant += " inside-a-ChainLoader-in-front-of-a-loader-with-other-copies"
+					res.Hist["loader-fault-runs-inside-a-ChainLoader"]++
+				}
+				ce := newC17Engine(c, c17Opts{loader: true, loadFailAt: j, emptyBefore: eb, emptyAfter: ea, chain: chain})
 				if eb || ea {
 					res.Hist["loader-fault-runs-with-further-empty-loaders"]++
 				}
